@@ -7,6 +7,7 @@
 // other document is unchanged; late peer registration / policy for the removed document fails; re-creation yields an empty document.
 // Second part: three neighbouring documents without entries but with policy and peers, each removed and re-created. Third part: after every step of
 // an 8-step history (inserts, overwrites, prefix deletions, removal) over two documents the reported content hashes are exactly the hashes of the held entries.
+// Fourth part: three documents with directly neighbouring ids, 3 authors (all-zero, ordinary, all-0xFF) x 3 keys (empty, ordinary, 0xFF 0xFF) each; each removed in turn.
 #[cfg(test)]
 mod verif_rp_c16_remove {
     use super::*;
@@ -146,5 +147,51 @@ mod verif_rp_c16_remove {
         }
         store.remove_replica(&docs[1].id()).unwrap();
         check(&mut store, "removing document 1");
+    }
+
+    /// Fourth part: three documents whose ids are direct neighbours in byte order, each holding entries at the extreme record positions (all-zero
+    /// author with the empty key, all-0xFF author with a 0xFF key) besides ordinary ones; each removed in turn: the two others are unchanged,
+    /// through both query paths, exact lookups, heads and content hashes. (The store does not check signatures, so the entries carry dummy ones.)
+    #[test]
+    fn removal_stops_exactly_at_the_borders_of_the_document() {
+        use crate::ranger::Store as _;
+        let entry = |ns: NamespaceId, author: AuthorId, key: &[u8], data: &[u8]| {
+            let id = RecordIdentifier::new(ns, author, key);
+            SignedEntry::new(EntrySignature::from_parts(&[0u8; 64], &[0u8; 64]), Entry::new(id, Record::new(Hash::new(data), data.len() as u64, 1)))
+        };
+        let ids: Vec<NamespaceId> = (6u8..=8).map(|last| { let mut b = [7u8; 32]; b[31] = last; NamespaceId::from(&b) }).collect();
+        let authors = [AuthorId::from(&[0u8; 32]), AuthorId::from(&[9u8; 32]), AuthorId::from(&[255u8; 32])];
+        let keys: [&[u8]; 3] = [b"", b"k", &[255u8, 255]];
+        for victim in 0..3usize {
+            let mut store = Store::memory();
+            for ns in &ids { store.import_namespace(Capability::Read(*ns)).unwrap(); }
+            for (d, ns) in ids.iter().enumerate() { for (a, author) in authors.iter().enumerate() { for (k, key) in keys.iter().enumerate() {
+                let e = entry(*ns, *author, key, format!("{d}{a}{k}").as_bytes());
+                crate::store::fs::StoreInstance::new(e.namespace(), &mut store).entry_put(e).unwrap();
+            } } }
+            let view = |store: &mut Store, ns: NamespaceId| {
+                let by_author: Vec<_> = store.get_many(ns, Query::all().include_empty()).unwrap().map(|e| { let e = e.unwrap(); (e.author(), e.key().to_vec(), e.content_hash()) }).collect();
+                let by_key: Vec<_> = store.get_many(ns, Query::single_latest_per_key().include_empty()).unwrap().map(|e| { let e = e.unwrap(); (e.author(), e.key().to_vec(), e.content_hash()) }).collect();
+                let exact: Vec<bool> = authors.iter().flat_map(|a| keys.iter().map(move |k| (*a, *k))).map(|(a, k)| store.get_exact(ns, a, k, true).unwrap().is_some()).collect();
+                let heads: Vec<_> = store.get_latest_for_each_author(ns).unwrap().map(|x| { let (a, t, k) = x.unwrap(); (a, t, k) }).collect();
+                (by_author, by_key, exact, heads)
+            };
+            let before: Vec<_> = ids.iter().map(|ns| view(&mut store, *ns)).collect();
+            assert!(before.iter().all(|v| v.0.len() == 9 && v.2.iter().all(|x| *x)), "WITNESS setup: not every entry is held");
+            let hashes_before = hashes(&mut store);
+            store.remove_replica(&ids[victim]).unwrap();
+            for (d, ns) in ids.iter().enumerate() {
+                let now = view(&mut store, *ns);
+                if d == victim {
+                    assert!(now.0.is_empty() && now.1.is_empty() && now.2.iter().all(|x| !*x) && now.3.is_empty(), "WITNESS the removed document {d} of three neighbouring ids still shows entries or heads: {now:?}");
+                } else {
+                    assert_eq!(now, before[d], "WITNESS removing document {victim} of three documents with neighbouring ids changed document {d}");
+                }
+            }
+            let gone: Vec<Hash> = before[victim].0.iter().map(|x| x.2).collect();
+            let mut want: Vec<Hash> = hashes_before.iter().filter(|h| !gone.contains(h)).cloned().collect();
+            want.sort();
+            assert_eq!(hashes(&mut store), want, "WITNESS after removing document {victim} of three neighbouring ids the reported content hashes are not those of the other two");
+        }
     }
 }
